@@ -104,6 +104,20 @@ let () = iter_lines (fun line ->
       done
     done;
     Printf.printf "I %s S %s\n" (String.trim (Buffer.contents bi)) (String.trim (Buffer.contents bs))
+  | ["alph"; _tag; w; h; hex] ->
+    (* ALPH chunk payload -> alpha plane, by the ALPH model with the VP8L specification decoder *)
+    let chunk = Stdlib.List.map z_of_int (bytes_of_hex (if hex = "-" then "" else hex)) in
+    let r = match ConformFile.alpha_decode chunk (z_of_string w) (z_of_string h) with
+      | Res.Ok a -> "ok " ^ hex_of_bytes (Stdlib.List.map int_of_z a)
+      | _ -> "err" in
+    Printf.printf "I %s S %s\n" r r
+  | ["rgb"; _tag; hex] ->
+    (* colour samples of a lossy+alpha picture: specification decoder + fancy upsampler + YUV->RGB *)
+    let data = Stdlib.List.map z_of_int (bytes_of_hex hex) in
+    let r = match Vp8Rgb.decode_rgb data with
+      | Res.Ok ((w, h), rows) -> Printf.sprintf "ok %d %d %s" (int_of_z w) (int_of_z h) (digest rows)
+      | _ -> "err" in
+    Printf.printf "I %s S %s\n" r r
   | "benc" :: ops ->
     (* boolean encoder: ops b<bit>:<prob>  u<bit>  v<value>:<count>  s<value>:<count>; the model's
        bytes, and (for b/u-only sequences) whether the RFC decoder reads the bits back *)
